@@ -97,7 +97,7 @@ def _strategy_dispatch_rule(ctx, prog, hcall, es):
             if len(defs) == 1:
                 lit = defs[0]
             elif not defs:
-                for st in hcall.module.node.body:
+                for st in hcall.module.tree.body:
                     if isinstance(st, ast.Assign) and len(st.targets) == 1 and isinstance(st.targets[0], ast.Name) and st.targets[0].id == e.id:
                         lit = st.value
         elif isinstance(e, ast.Attribute) and isinstance(e.value, ast.Name) and hcall.cls is not None:
